@@ -6,4 +6,6 @@ import VirtioVerif.Model.Wire
 import VirtioVerif.Model.CmdQueue
 import VirtioVerif.Model.Edid
 import VirtioVerif.Model.Gpu
+import VirtioVerif.Model.Sound
+import VirtioVerif.Model.SmallDevs
 import VirtioVerif.Props.C20
